@@ -38,6 +38,14 @@ func OnceValues[T1, T2 any](f func() (T1, T2)) func() (T1, T2) { return sync.Onc
 // proceed.
 var Hook func(kind string, m any, free func() bool)
 
+// Access marks a bulk memory access (inserted by the overlay in front of builtin copy calls of
+// packages listed under access_points): a scheduling point of registered goroutines, never blocking.
+func Access(kind string) {
+	if h := Hook; h != nil {
+		h(kind, nil, func() bool { return true })
+	}
+}
+
 // Mutex is a mutual exclusion lock whose waiters block durably.
 type Mutex struct {
 	mu     sync.Mutex
